@@ -119,11 +119,13 @@ def part_a(facts, res):
             ip.primitives[k[0]] = p_pop if nm == "pop_messages" else p_parse(nm)
         if not have_handlers:
             # no parse_u8 / parse_ioport to summarise: whatever handles the lines is followed down to the effects themselves
+            radix_ids = {}
+
             def m_radix(ip_, st, fr, t, args):
                 tm = strmodel.term_of(ip_, st, args[0])
                 radix = bv.to_int(args[1].bits) if isinstance(args[1], Int) else None
                 w = ip_.int_info(ip_.types[t["dest"]["ty"]]["args"][0])[0]
-                v = bv.seq_bv("num_%s_%d" % (abs(hash(tm)) % 100000, w), w)
+                v = bv.seq_bv("num_%d_%d" % (radix_ids.setdefault(tm, len(radix_ids)), w), w)
                 i = st.count("ctl")
                 okv = bv.ctl_var("hex", i)
                 return [(okv, Enum(models.OK, [Int(v)]), lambda s: s.add_eff(("radix", tm, radix, w, v, True))),
